@@ -262,6 +262,8 @@ def run_verus_unit(u, workdir, tier, do_canaries=True):
             res['undecided'].append('ledger obligations no longer generated: %s' % ', '.join(missing[:5]))
             res['status'] = 'undecided'
         for a in meta['assumed']:
+            if a.get('proved_in'):
+                continue    # proved on the CURRENT text by that unit, which check_property runs in the same check (dependency closure)
             want = led.get('assumed_hashes', {}).get(a['function'])
             if want and want != a['sha256']:
                 res['undecided'].append('assumed contract of %s no longer validated (its text changed)' % a['function'])
@@ -363,6 +365,30 @@ def check_property(pid, tier, only_units=None):
     if not sel:
         log('no units serve %s' % pid)
         return 2
+    # dependency closure: a unit that uses contracts proved in another unit ([[include]] / proved_in) is only as good as
+    # that proof on the CURRENT tree, so the proving units are run too.  A failure there counts for this property only
+    # when it is in a function whose contract is actually used (the include's `only` list).
+    dep_used = {}
+    def add_deps(u):
+        incs = [(inc['unit'], inc.get('only')) for inc in u.get('include', [])]
+        incs += [(it['proved_in'], [it['path']]) for it in u.get('item', []) if it.get('proved_in')]
+        for name, only in incs:
+            if name not in units:
+                continue
+            fresh = name not in dep_used and name not in {s['unit'] for s in sel}
+            cur = dep_used.setdefault(name, set())
+            if only is None:
+                cur.add('*')
+            else:
+                cur.update(only)
+            if fresh:
+                add_deps(units[name])
+    for u in list(sel):
+        add_deps(u)
+    deps = [units[n] for n in sorted(dep_used) if n not in {s['unit'] for s in sel}]
+    for d in deps:
+        d['_dependency_only'] = sorted(dep_used[d['unit']])
+    sel = sel + deps
     workdir = os.path.join(SCRATCH_BASE, 'ckbverif.%s.%d' % (pid, os.getpid()))
     os.makedirs(workdir, exist_ok=True)
     results = []
@@ -384,6 +410,15 @@ def check_property(pid, tier, only_units=None):
     violations = []
     known = []
     for r in results:
+        used = units[r['unit']].get('_dependency_only')
+        if used is not None:
+            r['role'] = 'dependency: contracts of this unit are used through [[include]] by a unit serving %s' % pid
+            if r['status'] == 'violation' and '*' not in used:
+                r['failed_not_used_here'] = [f for f in r['failed'] if f.get('function') not in used]
+                r['failed'] = [f for f in r['failed'] if f.get('function') in used]
+                if not r['failed']:
+                    r['status'] = 'pass'
+                    r['note'] = 'failures in this unit are in functions whose contracts this property does not use'
         if r['status'] == 'violation':
             for f in r['failed']:
                 is_known = None
@@ -436,9 +471,11 @@ def count_obligations(r):
     if r['engine'] == 'verus':
         named = [o for o in r['obligations'] if o['kind'] != 'requires']
         n = len(named) + len(r['functions'])
-        if r['status'] == 'pass':
+        if r['status'] == 'pass' and not r.get('failed_not_used_here'):
             return n, n
-        failed = {f['name'] for f in r['failed']}
+        failed = {f['name'] for f in r['failed']} | {f['name'] for f in r.get('failed_not_used_here', [])}
+        if r['status'] == 'pass':
+            return n, max(0, n - len(failed))
         return n, max(0, n - len(failed)) if r['status'] == 'violation' else 0
     n = r.get('n_obligations', 0)
     return n, r.get('n_discharged', 0)
@@ -469,7 +506,7 @@ def write_evidence(pid, tier, results, violations, wall):
             if o['kind'] != 'requires' and len(samples) < 60:
                 samples.append({'obligation': o['name'], 'function': o['function'], 'kind': o['kind'], 'contract': o['text'][:300]})
         units_doc.append({
-            'unit': r['unit'], 'engine': r['engine'], 'backend': r.get('backend'), 'status': r['status'],
+            'unit': r['unit'], 'engine': r['engine'], 'backend': r.get('backend'), 'status': r['status'], 'role': r.get('role', 'serves the property'),
             'functions_under_contract': [{'function': f['function'], 'file': f['file'], 'sha256': f['sha256']} for f in r['functions']],
             'obligations_named': [o['name'] for o in r['obligations'] if o['kind'] != 'requires'],
             'preconditions_stated': [{'name': o['name'], 'text': o['text'][:300]} for o in r['obligations'] if o['kind'] == 'requires'],
@@ -481,6 +518,7 @@ def write_evidence(pid, tier, results, violations, wall):
             'bounded_standins_NOT_counted': r.get('bounded', []),
             'undecided': r.get('undecided'),
             'failed': r.get('failed'),
+            'failed_in_functions_not_used_by_this_property': r.get('failed_not_used_here'),
             'harnesses': r.get('harnesses'),
             'wall_s': round(r.get('wall', 0), 2),
         })
@@ -494,7 +532,7 @@ def write_evidence(pid, tier, results, violations, wall):
             'trusted_base': trusted,
             'samples': samples,
             'units': units_doc,
-            'explanation': 'obligations = named ensures/invariant/loop-exit clauses + one safety obligation per function (overflow, callee preconditions, termination) for Verus units; Kani units count one obligation per contract/harness property checked over the full symbolic domain. Bounded stand-ins are listed separately and not counted.',
+            'explanation': 'obligations = named ensures/invariant/loop-exit clauses + one safety obligation per function (overflow, callee preconditions, termination) for Verus units; Kani units count one obligation per contract/harness property checked over the full symbolic domain. Bounded stand-ins are listed separately and not counted. Units with role `dependency` are units whose proved contracts are used (through [[include]]) by a unit serving this property; they are re-verified in the same run on the current tree and their obligations are included in the totals.',
         },
         'assumptions': trusted,
         'wall_s': round(wall, 2),
